@@ -145,7 +145,7 @@ def _p1(fmt, d):
 
 for _fmt in FORMATS:
     for _d in range(len(TRIGGER_DOCS)):
-        ob("C08", "P1.round2.%s.d%d" % (_fmt, _d), {"t": R(0, len(TYPES) - 1), "i": R(0, 1) , "nonsuffix": BOOL},
+        ob("C08", "P1.round2.%s.d%d" % (_fmt, _d), {"t": R(0, len(TYPES) - 1), "i": R(0, 1) , "nonsuffix": BOOL}, enum=True,
            tier="quick" if _d < 4 else "thorough", T=500, tpath=120, funcs=FORMAT_FUNCS[_fmt], assumes=[ADHOC_SHIMS_DOC],
            bound="description %r x types %r x int default 0/1 in suffix or NON-suffix position, return entry; round 2 == round 1 (solver-enumerated)" % (TRIGGER_DOCS[_d], TYPES))(_p1(_fmt, _d))
 
@@ -179,7 +179,7 @@ def json_rounds(t, i, withdoc):
     return ""
 
 
-ob("C08", "P1.rounds.json_schema", {"t": R(0, len(JTYPES) - 1), "i": R(-1, 1), "withdoc": BOOL}, T=400, funcs=FORMAT_FUNCS["json_schema"], assumes=[ADHOC_SHIMS_DOC],
+ob("C08", "P1.rounds.json_schema", {"t": R(0, len(JTYPES) - 1), "i": R(-1, 1), "withdoc": BOOL}, enum=True, T=400, funcs=FORMAT_FUNCS["json_schema"], assumes=[ADHOC_SHIMS_DOC],
    bound="json_schema emit->parse three times on types %r (Literal members with '.', '-', '+', space), int default -1..1, description present or not: each round equals the previous" % (JTYPES,))(json_rounds)
 
 
@@ -230,7 +230,7 @@ from harness.c05 import FUNCS as _SQLF  # noqa: E402
 for _variant in ("class", "table"):
     for _tl in range(0, len(SQL_TAILS), 3):
         _th = min(_tl + 2, len(SQL_TAILS) - 1)
-        ob("C08", "P1.rounds.sqlalchemy_%s.t%d" % (_variant, _tl), {"tail": R(_tl, _th), "t": R(0, len(SQL_TYPES) - 1), "dflt": BOOL}, T=900, tpath=120, funcs=_SQLF,
+        ob("C08", "P1.rounds.sqlalchemy_%s.t%d" % (_variant, _tl), {"tail": R(_tl, _th), "t": R(0, len(SQL_TYPES) - 1), "dflt": BOOL}, enum=True, T=900, tpath=120, funcs=_SQLF,
            tier="quick" if _variant == "class" or _tl == 0 else "thorough",
            assumes=[ADHOC_SHIMS_DOC], bound="sqlalchemy %s emit->parse four times: column description 'the text'+tail for tails %r x types %r x with/without default, "
            "return entry present for odd tails: each round equals the previous (solver-enumerated)" % (_variant, SQL_TAILS[_tl:_th + 1], SQL_TYPES))(_sql_rounds(_variant, False))
